@@ -9,10 +9,19 @@ import GocoinV.Proofs.C08_GroupAlg
 namespace GocoinV.C08
 open GocoinV.Gen.Field5x52
 
-/-- the magnitude contract of the group layer (what Double/Add/AddXY produce and accept) and Z ≠ 0 for finite points -/
-def XYZ.ok (a : XYZ) : Prop := a.x.mag 6 ∧ a.y.mag 4 ∧ a.z.mag 2 ∧ (a.inf = false → a.z.z ≠ 0)
+/-- the INPUT contract of the group layer = everything the Go functions admit: each coordinate is handed to
+    `Field.Mul` / `Field.Sqr` somewhere in Double / Add / AddXY / mul_lambda / ECmult, whose contract is magnitude ≤ 8
+    (limb i ≤ 16·(2^52−1), top limb ≤ 16·(2^48−1)); nothing narrower is needed anywhere. Z ≠ 0 for finite points. -/
+def XYZ.ok (a : XYZ) : Prop := a.x.mag 8 ∧ a.y.mag 8 ∧ a.z.mag 8 ∧ (a.inf = false → a.z.z ≠ 0)
 
-def XY.ok (b : XY) : Prop := b.x.mag 2 ∧ b.y.mag 2
+/-- what Double / Add / AddXY themselves PRODUCE for a finite result (X ≤ 6, Y ≤ 4, Z ≤ 2): a subset of `XYZ.ok` -/
+def XYZ.okOut (a : XYZ) : Prop := a.x.mag 6 ∧ a.y.mag 4 ∧ a.z.mag 2 ∧ (a.inf = false → a.z.z ≠ 0)
+
+theorem XYZ.okOut.ok {a : XYZ} (h : a.okOut) : a.ok :=
+  ⟨mag_mono h.1 (by decide), mag_mono h.2.1 (by decide), mag_mono h.2.2.1 (by decide), h.2.2.2⟩
+
+/-- affine input contract: both coordinates within what Mul/Sqr accept -/
+def XY.ok (b : XY) : Prop := b.x.mag 8 ∧ b.y.mag 8
 
 /-- the affine point a Jacobian triple stands for: (X/Z², Y/Z³) as canonical residues, `none` = ∞ -/
 def XYZ.toPoint (a : XYZ) : Secp.Point :=
@@ -20,7 +29,7 @@ def XYZ.toPoint (a : XYZ) : Secp.Point :=
 
 def XY.toPoint (b : XY) : Secp.Point := if b.inf then none else ptF b.x.z b.y.z
 
-theorem doubleCore_S {ax t5 az : Fe} {X Y Z : F} (hx : FeS ax 6 X) (hy : FeS t5 1 Y) (hz : FeS az 2 Z) :
+theorem doubleCore_S {ax t5 az : Fe} {X Y Z : F} (hx : FeS ax 8 X) (hy : FeS t5 1 Y) (hz : FeS az 8 Z) :
     FeS (doubleCore ax t5 az).x 6 (9 * X ^ 4 - 8 * X * Y ^ 2) ∧
     FeS (doubleCore ax t5 az).y 4 (3 * X ^ 2 * (12 * X * Y ^ 2 - 9 * X ^ 4) - 8 * Y ^ 4) ∧
     FeS (doubleCore ax t5 az).z 2 (2 * Y * Z) ∧ (doubleCore ax t5 az).inf = false := by
@@ -76,17 +85,18 @@ theorem XYZ.toPoint_fin {a : XYZ} (h : a.inf = false) :
     a.toPoint = ptF (a.x.z / a.z.z ^ 2) (a.y.z / a.z.z ^ 3) := by
   unfold XYZ.toPoint; simp [h]
 
-/-- `XYZ.Double` is the doubling of the reference group law (∞ ↦ ∞, points with y = 0 ↦ ∞) and keeps the contract -/
-theorem double_ok (a : XYZ) (h : a.ok) :
-    (XYZ.double a).ok ∧ (XYZ.double a).toPoint = Secp.dbl a.toPoint := by
-  obtain ⟨hx, hy, hz, hz0⟩ := h
+/-- `XYZ.Double` over its FULL input contract: X and Z go into Sqr/Mul (magnitude ≤ 8), Y is normalised first
+    (magnitude ≤ 32 = `Normalize`'s contract): the result is either the input with the Infinity flag set (∞ ↦ ∞, points
+    with y = 0 ↦ ∞) or a finite point within the output contract (6/4/2), and stands for the double. -/
+theorem double_full (a : XYZ) (hx : a.x.mag 8) (hy : a.y.mag 32) (hz : a.z.mag 8) (hz0 : a.inf = false → a.z.z ≠ 0) :
+    (XYZ.double a = { a with inf := true } ∨ (XYZ.double a).okOut) ∧ (XYZ.double a).toPoint = Secp.dbl a.toPoint := by
   obtain ⟨hn, hnd⟩ := (FeS.self hy).norm (by decide)
   unfold XYZ.double
   simp only []
   cases hinf : a.inf with
   | true =>
     simp only [Bool.true_or, if_true]
-    refine ⟨⟨hx, hy, hz, fun h => by simp at h⟩, ?_⟩
+    refine ⟨Or.inl trivial, ?_⟩
     rw [XYZ.toPoint_inf rfl, XYZ.toPoint_inf hinf]; rfl
   | false =>
     have hz0' := hz0 hinf
@@ -94,7 +104,7 @@ theorem double_ok (a : XYZ) (h : a.ok) :
     by_cases hy0 : a.y.z = 0
     · have hzero : isZero (normalize a.y) = true := (isZero_normd hnd).2 (by rw [hn.2, hy0])
       simp only [hzero, Bool.or_true, if_true]
-      refine ⟨⟨hx, hy, hz, fun h => by simp at h⟩, ?_⟩
+      refine ⟨Or.inl trivial, ?_⟩
       rw [XYZ.toPoint_inf rfl, if_pos (by rw [hy0, zero_div])]
     · have hzero : isZero (normalize a.y) = false := by
         cases hc : isZero (normalize a.y) with
@@ -103,8 +113,18 @@ theorem double_ok (a : XYZ) (h : a.ok) :
       simp only [hzero, Bool.or_false, Bool.false_eq_true, if_false]
       obtain ⟨rx, ry, rz, ri⟩ := doubleCore_S (FeS.self hx) hn (FeS.self hz)
       obtain ⟨hrz0, e1, e2⟩ := dbl_alg a.x.z a.y.z a.z.z _ _ _ hz0' hy0 rz.2 rx.2 ry.2
-      refine ⟨⟨rx.1, ry.1, rz.1, fun _ => hrz0⟩, ?_⟩
+      refine ⟨Or.inr ⟨rx.1, ry.1, rz.1, fun _ => hrz0⟩, ?_⟩
       rw [XYZ.toPoint_fin ri, if_neg (div_ne_zero hy0 (pow_ne_zero _ hz0')), e1, e2]
+
+/-- `XYZ.Double` is the doubling of the reference group law (∞ ↦ ∞, points with y = 0 ↦ ∞) and keeps the contract -/
+theorem double_ok (a : XYZ) (h : a.ok) :
+    (XYZ.double a).ok ∧ (XYZ.double a).toPoint = Secp.dbl a.toPoint := by
+  obtain ⟨hx, hy, hz, hz0⟩ := h
+  obtain ⟨h1, h2⟩ := double_full a hx (mag_mono hy (by decide)) hz hz0
+  refine ⟨?_, h2⟩
+  cases h1 with
+  | inl e => rw [e]; exact ⟨hx, hy, hz, fun h => by simp at h⟩
+  | inr o => exact o.ok
 
 theorem bool_eq_false_of_not {b : Bool} (h : ¬ b = true) : b = false := by
   cases b <;> simp_all
@@ -170,7 +190,7 @@ theorem add_ok (a b : XYZ) (ha : a.ok) (hb : b.ok) :
         obtain ⟨hrz0, e1, e2⟩ := add_alg (a.x.z / a.z.z ^ 2) (a.y.z / a.z.z ^ 3) (b.x.z / b.z.z ^ 2) (b.y.z / b.z.z ^ 3)
           (a.z.z * b.z.z) _ _ _ _ _ _ _ hw (fun h => hU ((div_sq_eq_iff hz1 hz2).1 h))
           (by field_simp) (by field_simp) (by field_simp) (by field_simp) rz.2 rx.2 (ry.2.trans (by rw [rx.2]))
-        refine ⟨⟨rx.1, ry.1, rz.1, fun _ => hrz0⟩, ?_⟩
+        refine ⟨XYZ.okOut.ok ⟨rx.1, ry.1, rz.1, fun _ => hrz0⟩, ?_⟩
         rw [XYZ.toPoint_fin ri, e1, e2]
 
 theorem XY.toPoint_fin {b : XY} (h : b.inf = false) : b.toPoint = ptF b.x.z b.y.z := by
@@ -243,7 +263,7 @@ theorem addXY_ok (a : XYZ) (b : XY) (ha : a.ok) (hb : b.ok) :
         obtain ⟨hrz0, e1, e2⟩ := add_alg (a.x.z / a.z.z ^ 2) (a.y.z / a.z.z ^ 3) b.x.z b.y.z
           a.z.z _ _ _ _ _ _ _ hz1 (fun h => hU (hxe.1 h))
           (by field_simp) (by ring) (by field_simp) (by ring) rz.2 rx.2 (ry.2.trans (by rw [rx.2]))
-        refine ⟨⟨rx.1, ry.1, rz.1, fun _ => hrz0⟩, ?_⟩
+        refine ⟨XYZ.okOut.ok ⟨rx.1, ry.1, rz.1, fun _ => hrz0⟩, ?_⟩
         rw [XYZ.toPoint_fin ri, e1, e2]
 
 theorem secp_neg_F (x y : F) : Secp.neg (ptF x y) = ptF x (-y) := by
@@ -251,33 +271,54 @@ theorem secp_neg_F (x y : F) : Secp.neg (ptF x y) = ptF x (-y) := by
   simp only [secp_p_eq]
   congr 2
 
+theorem XYZ.neg_x (a : XYZ) : (XYZ.neg a).x = a.x := by cases a; rfl
+theorem XYZ.neg_z (a : XYZ) : (XYZ.neg a).z = a.z := by cases a; rfl
+theorem XYZ.neg_inf (a : XYZ) : (XYZ.neg a).inf = a.inf := by cases a; rfl
+theorem XYZ.neg_y (a : XYZ) : (XYZ.neg a).y = negate (normalize a.y) 1 := by cases a; rfl
+
+/-- `XYZ.Neg` over its FULL input contract: X and Z are only copied (no hypothesis at all), Y is normalised first, so
+    every Y within `Normalize`'s contract (magnitude ≤ 32 — in particular every Y that Mul/Sqr accept, magnitude ≤ 8,
+    and every Y the library produces, ≤ 4) is admitted: X, Z, Infinity unchanged, new Y of magnitude ≤ 2, and the
+    triple stands for the negated point. -/
+theorem neg_full (a : XYZ) (hay : a.y.mag 32) :
+    (XYZ.neg a).x = a.x ∧ (XYZ.neg a).z = a.z ∧ (XYZ.neg a).inf = a.inf ∧ (XYZ.neg a).y.mag 2 ∧
+    (XYZ.neg a).toPoint = Secp.neg a.toPoint := by
+  obtain ⟨yn, _⟩ := (FeS.self hay).norm (by decide)
+  have y' := yn.neg 1 (by decide) (by decide)
+  refine ⟨XYZ.neg_x a, XYZ.neg_z a, XYZ.neg_inf a, by rw [XYZ.neg_y]; exact y'.1, ?_⟩
+  cases hia : a.inf with
+  | true => rw [XYZ.toPoint_inf (by rw [XYZ.neg_inf]; exact hia), XYZ.toPoint_inf hia]; rfl
+  | false =>
+    rw [XYZ.toPoint_fin (by rw [XYZ.neg_inf]; exact hia), XYZ.toPoint_fin hia, secp_neg_F,
+      XYZ.neg_x, XYZ.neg_z, XYZ.neg_y, y'.2, neg_div]
+
 /-- `XYZ.Neg` is the negation of the reference group law and keeps the contract -/
 theorem neg_ok (a : XYZ) (ha : a.ok) : (XYZ.neg a).ok ∧ (XYZ.neg a).toPoint = Secp.neg a.toPoint := by
   obtain ⟨hax, hay, haz, haz0⟩ := ha
-  obtain ⟨yn, _⟩ := (FeS.self hay).norm (by decide)
-  have y' := yn.neg 1 (by decide) (by decide)
-  unfold XYZ.neg
-  refine ⟨⟨hax, mag_mono y'.1 (by decide), haz, haz0⟩, ?_⟩
-  cases hia : a.inf with
-  | true => rw [XYZ.toPoint_inf rfl, XYZ.toPoint_inf hia]; rfl
-  | false =>
-    rw [XYZ.toPoint_fin rfl, XYZ.toPoint_fin hia, secp_neg_F]
-    show ptF _ ((negate (normalize a.y) 1).z / _) = _
-    rw [y'.2, neg_div]
+  obtain ⟨ex, ez, ei, hy, hp⟩ := neg_full a (mag_mono hay (by decide))
+  refine ⟨⟨by rw [ex]; exact hax, mag_mono hy (by decide), by rw [ez]; exact haz, ?_⟩, hp⟩
+  rw [ei, ez]; exact haz0
 
-/-- `XY.Neg` (affine) -/
-theorem negXY_ok (b : XY) (hb : b.ok) : (XY.neg b).ok ∧ (XY.neg b).toPoint = Secp.neg b.toPoint := by
-  obtain ⟨hbx, hby⟩ := hb
+theorem XY.neg_x (b : XY) : (XY.neg b).x = b.x := by cases b; rfl
+theorem XY.neg_inf (b : XY) : (XY.neg b).inf = b.inf := by cases b; rfl
+theorem XY.neg_y (b : XY) : (XY.neg b).y = negate (normalize b.y) 1 := by cases b; rfl
+
+/-- `XY.Neg` (affine) over its FULL input contract: X copied (no hypothesis), any Y of magnitude ≤ 32 -/
+theorem negXY_full (b : XY) (hby : b.y.mag 32) :
+    (XY.neg b).x = b.x ∧ (XY.neg b).inf = b.inf ∧ (XY.neg b).y.mag 2 ∧ (XY.neg b).toPoint = Secp.neg b.toPoint := by
   obtain ⟨yn, _⟩ := (FeS.self hby).norm (by decide)
   have y' := yn.neg 1 (by decide) (by decide)
-  unfold XY.neg
-  refine ⟨⟨hbx, y'.1⟩, ?_⟩
+  refine ⟨XY.neg_x b, XY.neg_inf b, by rw [XY.neg_y]; exact y'.1, ?_⟩
   cases hib : b.inf with
-  | true => rw [XY.toPoint_inf rfl, XY.toPoint_inf hib]; rfl
+  | true => rw [XY.toPoint_inf (by rw [XY.neg_inf]; exact hib), XY.toPoint_inf hib]; rfl
   | false =>
-    rw [XY.toPoint_fin rfl, XY.toPoint_fin hib, secp_neg_F]
-    show ptF _ (negate (normalize b.y) 1).z = _
-    rw [y'.2]
+    rw [XY.toPoint_fin (by rw [XY.neg_inf]; exact hib), XY.toPoint_fin hib, secp_neg_F, XY.neg_x, XY.neg_y, y'.2]
+
+/-- `XY.Neg` (affine) keeps the contract -/
+theorem negXY_ok (b : XY) (hb : b.ok) : (XY.neg b).ok ∧ (XY.neg b).toPoint = Secp.neg b.toPoint := by
+  obtain ⟨hbx, hby⟩ := hb
+  obtain ⟨ex, _, hy, hp⟩ := negXY_full b (mag_mono hby (by decide))
+  exact ⟨⟨by rw [ex]; exact hbx, mag_mono hy (by decide)⟩, hp⟩
 
 /-- `XYZ.SetXY`: an affine point as a Jacobian one (Z = 1) -/
 theorem ofXY_ok (b : XY) (hb : b.ok) : (XYZ.ofXY b).ok ∧ (XYZ.ofXY b).toPoint = b.toPoint := by
